@@ -1,4 +1,5 @@
 import BevySyncModel.Proofs.EntDel
+import BevySyncModel.Proofs.EntLive
 import BevySyncModel.Generated.Filter
 import BevySyncModel.Generated.Ent
 import BevySyncModel.Generated.Snap
@@ -37,6 +38,11 @@ on the joiner; and the client ignores messages about uuids it does not know (reg
 client receiver) -/
 theorem C01_snapshot_tie :
     Generated.snapSpawnBeforeComponents = true ∧ Generated.snapClientIgnoresUnknownEntity = true := by decide
+
+/-- **"once traffic has drained" is reached, not assumed**: from any state of the slice, two fair rounds without application
+operations end in a quiescent state — the premise of the agreement theorems below -/
+theorem C01_drain_reached (s : State) : Quiescent (round (round s)) :=
+  two_rounds_quiescent s
 
 /-- **C01, entity marked on the host** — before or after any client connected (a client that is not yet
 in `clients` simply is not there; joining later is C03): for every number of clients, every interleaving
